@@ -76,6 +76,19 @@ def main():
     failures = []
     stats = core.Stats()
     known = core.load_known()
+    # watchdog: implementation code that never returns (Python-level loops) must not hang the check
+    import signal
+
+    class Deadline(Exception):
+        pass
+
+    def on_deadline(signum, frame):
+        raise Deadline("phase exceeded its time limit")
+    phase_limit = 1200 if a.tier == "quick" else 3000
+    try:
+        signal.signal(signal.SIGALRM, on_deadline)
+    except Exception:
+        pass
 
     # 1-2. translate (regenerate the model parts that come from the source)
     try:
@@ -100,12 +113,17 @@ def main():
         print("infrastructure error: driver\n" + traceback.format_exc())
         return 2
     try:
+        signal.setitimer(signal.ITIMER_REAL, phase_limit)
         failures += chk.correspond(drv, stats)
         from vcheck import reuse as _reuse
         failures += _reuse.check(a.prop, stats)        # statelessness: used-then-changed objects vs fresh objects
     except Exception:
         failures.append(core.Failure("correspondence", "harness of " + a.prop, traceback.format_exc()))
     finally:
+        try:
+            signal.setitimer(signal.ITIMER_REAL, 0)
+        except Exception:
+            pass
         drv.close()
         from vcheck import gen as _gen
         _gen.use(None)
@@ -132,7 +150,9 @@ def main():
                 print("  %s: %s" % (f.name, " | ".join(f.detail.strip().split("\n")[-3:])))
         viol = None
         try:
+            signal.setitimer(signal.ITIMER_REAL, phase_limit)
             viol = chk.search(failures, stats)
+            signal.setitimer(signal.ITIMER_REAL, 0)
         except Exception:
             print("failing-input search crashed:\n" + traceback.format_exc())
         if viol is not None and known_match(a.prop, viol, known):
